@@ -195,7 +195,8 @@ fn main() {
         {
             let y = gen::rule(&mut r, false);
             if let Some(yf) = parse_net(&y) {
-                if !yf.is_badfilter() {
+                // (if the list already holds a twin of y, y$badfilter rightly cancels that one too: skip)
+                if !yf.is_badfilter() && !rules.iter().any(|f| !f.is_badfilter() && f.get_id() == yf.get_id()) {
                     let z = with_badfilter(&y);
                     let mut l2 = lines.clone();
                     l2.push(y.clone());
